@@ -92,6 +92,7 @@ type c04Mesh struct {
 	mu       sync.Mutex
 	log      []c04Frame
 	seq      int
+	lastCtr  map[string]uint64 // (peer, stream) -> last counter seen; kept across ops (stream ids are never reused)
 	tcpEcho  net.Listener
 	udpEcho  net.PacketConn
 	socks    string
@@ -434,10 +435,11 @@ func (m *c04Mesh) summary(kind string, payload []byte, echo bool) string {
 	type dirStat struct {
 		plain int
 		seqOK bool
-		last  map[uint64]uint64
-		seen  map[uint64]bool
 	}
-	st := map[identity.AgentID]*dirStat{aID: {seqOK: true, last: map[uint64]uint64{}, seen: map[uint64]bool{}}, cID: {seqOK: true, last: map[uint64]uint64{}, seen: map[uint64]bool{}}}
+	st := map[identity.AgentID]*dirStat{aID: {seqOK: true}, cID: {seqOK: true}}
+	if m.lastCtr == nil {
+		m.lastCtr = map[string]uint64{}
+	}
 	wantPfx := map[identity.AgentID]uint32{aID: 0, cID: 0x80000000}
 	for _, f := range log {
 		if len(payload) >= 8 && bytes.Contains(f.payload, payload) {
@@ -472,15 +474,15 @@ func (m *c04Mesh) summary(kind string, payload []byte, echo bool) string {
 		if pfx != wantPfx[f.peer] {
 			d.seqOK = false
 		}
-		if !d.seen[f.stream] {
-			d.seen[f.stream] = true
+		key := fmt.Sprintf("%s/%d", f.peer.String(), f.stream)
+		if last, seen := m.lastCtr[key]; !seen {
 			if ctr != 0 {
 				d.seqOK = false
 			}
-		} else if ctr != d.last[f.stream]+1 {
+		} else if ctr != last+1 {
 			d.seqOK = false
 		}
-		d.last[f.stream] = ctr
+		m.lastCtr[key] = ctr
 	}
 	b := func(x bool) int {
 		if x {
